@@ -728,10 +728,15 @@ class World:
                 obj.close(commit=False)
             except Exception:
                 pass
+        both = []
         if before != self.listing():
-            raise Violation("C02", "committed-bytes-changed", f"open(mode={mode!r}) of the first {len(keep)} of {len(r.disk)} containers changed files: {self.listing_diff(before, self.listing())}", shape="prefix-open")
+            both.append(Violation("C02", "committed-bytes-changed", f"open(mode={mode!r}) of the first {len(keep)} of {len(r.disk)} containers changed files: {self.listing_diff(before, self.listing())}", shape="prefix-open"))
         if ok:
-            raise Violation("C03", "open-mode", f"open(mode={mode!r}) of a proper prefix of the chain succeeded although the next patch file exists", shape="prefix-open")
+            both.append(Violation("C03", "open-mode", f"open(mode={mode!r}) of a proper prefix of the chain succeeded although the next patch file exists", shape="prefix-open"))
+        if both:
+            both.sort(key=lambda v: v.v["prop"] != self.focus)  # the checked property's symptom first
+            both[0].also = [v.v for v in both[1:]]
+            raise both[0]
         return f"raise:{type(exc).__name__}"
 
     def next_index(self, r):
